@@ -85,9 +85,9 @@ fn bdd_cnf(ctx: &mut Ctx, rng: &mut Rng, max_clauses: usize) {
     let cl = random_clauses(&st, rng);
     let cnf = clauses_to_cnf(&cl);
     let ncnf = clauses_num_vars(&cl);
-    if cnf.num_vars() != ncnf {
-        ctx.violation("cnf.num_vars", "Cnf::num_vars is not max label + 1",
-            json!({"clauses": clauses_json(&cl), "got": cnf.num_vars(), "expected": ncnf}));
+    if cnf.num_vars() > ncnf {
+        ctx.violation("cnf.num_vars", "Cnf::num_vars exceeds max label + 1",
+            json!({"clauses": clauses_json(&cl), "got": cnf.num_vars(), "max_label_plus_one": ncnf}));
     }
     // the builder may know more variables than the CNF mentions
     let n = usize::max(1, ncnf + rng.below(2));
